@@ -25,7 +25,9 @@ def main():
                 rc, out = 1, "patch does not apply to the current tree (conflict): " + out
     if rc != 0:
         print("APPLY FAILED:", out)
-        sh(["git", "checkout", "--", "."], "/repo"); sh(["git", "reset", "-q"], "/repo")
+        # unmerged index entries first, then the files (checkout refuses unmerged paths)
+        sh(["git", "reset", "-q"], "/repo"); sh(["git", "checkout", "--", "."], "/repo")
+        assert sh(["git", "status", "--porcelain", "--untracked-files=no"], "/repo")[1].strip() == "", "could not restore /repo"
         return 2
     results = {}
     saved = {}
